@@ -27,7 +27,8 @@ ASSUMPTIONS = [
 ]
 REQUIRED_CLASSES = ["seq-len-79-81", "seq-len-159-161", "negative-int", "one-char-field", "append", "gzip", "stream", "empty-piece-between",
                     "empty-piece-first", "int-near-power-of-ten", "empty-table", "pieces-from-reread", "pieces-from-reread-thinned", "concat-of-reread-pieces",
-                    "pieces-sliced-from-the-table-already-written", "sequence-column-in-dna-encoding", "table-written-is-a-row-selection"]
+                    "pieces-sliced-from-the-table-already-written", "sequence-column-in-dna-encoding", "table-written-is-a-row-selection",
+                    "pieces-are-the-chunks-of-one-reader-a-column-assigned-on-every-second"]
 BOUNDS = {"quick": "150 (table, plan) pairs for each of 17 table types, up to 8 rows", "thorough": "3000 per type, up to 40 rows"}
 BUDGET_S = {"quick": 200, "thorough": 1500}
 
@@ -207,7 +208,7 @@ def split_header(tname, data):
 
 def plan_rows(rows, plan):
     """The rows the plan writes, in order (a re-read source may be thinned to every second row of each piece)."""
-    if plan.get("source") == "reread" and plan.get("thin"):
+    if plan.get("source") == "reread" and plan.get("thin") and not plan.get("chunk_bytes"):
         return [r for i, r in enumerate(rows) if i % 2 == 0]
     return list(rows)
 
@@ -226,6 +227,27 @@ def run_plan(tname, rows, plan, path, single=None, table=None, dna=False):
         bounds.append((pos, min(pos + n, len(rows))))
         pos = min(pos + n, len(rows))
     bounds.append((pos, len(rows))) if pos < len(rows) or not bounds else None
+    if plan.get("source") == "reread" and plan.get("chunk_bytes"):
+        # the pieces are the chunks one reader hands out for the file just written; on every second chunk (the first, the third, ...) an
+        # integer column is assigned its own values again before the chunk is written; the other chunks are written as they come
+        int_col = next((n_ for n_, k_ in TYPES[tname][3] if k_ in ("int", "pos", "uint")), None)
+
+        def pieces_of_reader():
+            # (a chunk size far below the file size only costs time: at most some forty raw reads per file)
+            k_ = max(plan["chunk_bytes"], os.path.getsize(single) // 40)
+            for i, chunk in enumerate(bnp.open(single, buffer_type=bt).read_chunks(min_chunk_size=k_)):
+                if int_col and i % 2 == 0 and plan.get("assign"):
+                    setattr(chunk, int_col, getattr(chunk, int_col) + 0)
+                yield chunk
+        with bnp.open(path, "w", buffer_type=bt) as f:
+            if plan["mode"] == "stream":
+                f.write(NpDataclassStream(pieces_of_reader(), dataclass=dc))
+            else:
+                for chunk in pieces_of_reader():
+                    f.write(chunk)
+        with open(path, "rb") as f:
+            data = f.read()
+        return gzip.decompress(data) if path.endswith(".gz") else data
     if plan.get("source") == "reread":
         whole = bnp.open(single, buffer_type=bt).read()
 
@@ -289,7 +311,9 @@ def classify(case):
         cl.append("table-written-is-a-row-selection")
     if plan.get("source") == "same-table":
         cl.append("pieces-sliced-from-the-table-already-written")
-    if plan.get("source") == "reread":
+    if plan.get("source") == "reread" and plan.get("chunk_bytes"):
+        cl.append("pieces-are-the-chunks-of-one-reader" + ("-a-column-assigned-on-every-second" if plan.get("assign") else ""))
+    elif plan.get("source") == "reread":
         cl.append("pieces-from-reread" + ("-thinned" if plan.get("thin") else ""))
         if plan["mode"] == "concat":
             cl.append("concat-of-reread-pieces")
@@ -456,6 +480,8 @@ def c03_case(draw, tname, max_rows):
             extra["view_perm"] = p_
     if n >= 2 and tname not in NO_REREAD and draw(st.integers(0, 2)) == 0:
         plan.update(source="reread", thin=draw(st.booleans()), mode=draw(st.sampled_from(["writes", "stream", "append", "concat", "concat"])))
+        if draw(st.integers(0, 2)) == 0:
+            plan.update(chunk_bytes=draw(st.integers(8, 120)), assign=draw(st.booleans()), mode=draw(st.sampled_from(["writes", "stream"])))
     return dict({"type": tname, "rows": rows, "plan": plan}, **extra)
 
 
